@@ -13,7 +13,7 @@ pub fn run(tier: Tier) -> i32 {
             n_thorough: 2500,
             tune: &|p| {
                 p.colliding_abbrev = true;
-                p.xml_lang = 2;
+                p.xml_lang = 1;
             },
         },
     )
